@@ -138,7 +138,7 @@ def gen_ops(tier, r):
             while not is_p(pp):
                 pp += 1
             e0 = pp * pp + r.choice([-1, 0, 1])
-        s0 = max(0, e0 - r.choice([0, 1000, 30 * 16384, 3 * 30 * 16384, r.randrange(0, 10**7)]))
+        s0 = r.choice([max(0, e0 - r.choice([1000, 30 * 16384, 3 * 30 * 16384, r.randrange(0, 10**7)])), e0 // 2, e0 // 10, e0 // 1000, 0])
         ops.append(("sieving-primes-source", f"sp {s0} {e0} {r.choice([16, 32, 64])}"))
     # 5. random
     for _ in range(20 if q else 200):
